@@ -345,7 +345,9 @@ class BaseTemplate:
             self.engine,
             module,
             str(self.filename),
-            body,
+            # Token positions refer to the text that was tokenized,
+            # which the parser may have normalized (line endings).
+            getattr(program, "source", body),
             builtins=builtins,
             strict=self.strict
         )
